@@ -371,6 +371,56 @@ def run(P, C, tier):
         for k, d in deletes.items():
             C.ob("R5", "deleted:" + k, len(d) == 1 and mir.result_edges(ia, d[0][0]) is not None, ia.loc(d[0][0]) if d else ia.loc(), "the consumed invitation is deleted from storage and a failure is propagated")
         C.ob("R5", "token-removed", len(removes) >= 2, ia.loc(), "the invitation's meeting token entry is removed (%d sites)" % len(removes))
+        # the entry is removed under the key it was inserted with: invitations are announced under derive_token(<context>, <invitation id>)
+        # (PeerManager::new / add_owned_invite / add_invite); a removal that looks under another key (e.g. the meeting token of the
+        # new peer) never finds the entry and the invitation stays usable until restart
+        for n_, (rb, rt) in enumerate(sorted(removes)):
+            recv = ia.call_args(rb, expand_vars=True)[0]
+            gm = mir.has_call(recv, r"HashMap::get_mut$")
+            keyt = strip_refs(gm[2][1]) if gm is not None and len(gm[2]) > 1 else None
+            if keyt is not None and keyt[0] == "var" and len(keyt) > 2:
+                kd = ia.var_defs(keyt)
+                keyt = strip_refs(kd[0]) if len(kd) == 1 else keyt
+            dt = mir.has_call(keyt, r"MeetingSecret::derive_token$") if keyt is not None else None
+            arm = None
+            for s_, vals, term in ia.guards(rb, expand_vars=True):
+                dv = mir.discr_variants(term, vals)
+                if dv and term[2].endswith("TokenType") and len(dv[1]) == 1:
+                    arm = dv[1][0]
+            ok = False
+            detail = "key = %s" % (term_str(keyt)[:70] if keyt is not None else "?")
+            if dt is not None and len(dt[2]) == 2:
+                idp = full_path(ia, strip_refs(dt[2][1]))
+                want = {"OwnedInvite": r"@OwnedInvite\.0\.id$|\.id$", "Invite": r"\.invite_id$"}.get(arm, r"$^")
+                ok = re.search(want, idp) is not None and "allowed_token" in term_str(gm[2][0])
+                detail = "key = derive_token(.., %s) in the %s arm" % (idp, arm)
+            C.ob("R5", "token-removed-under-its-own-key:%s" % (arm or "?"), ok, ia.loc(rb),
+                 detail + ("" if ok else " -- the invitation was inserted under derive_token(context, invitation id): this lookup never finds it, the consumed invitation stays in allowed_token and a second peer presenting its token is accepted in the same session"))
+        # a consumed invitation is deleted whatever happens next: from the entry of its arm every path to a return (Ok or Err) passes its
+        # deletion, except through the deletion's own failure -- a fallible step placed before it (e.g. the default room grant) leaves the
+        # invitation valid after the guest was already stored as an allowed peer
+        for k, d in deletes.items():
+            if len(d) != 1:
+                continue
+            db_ = d[0][0]
+            arm_entry = None
+            for sb in ia.dom_chain(db_):
+                tt = ia.blocks[sb]["t"]
+                if tt["k"] != "switch":
+                    continue
+                term = ia.switch_term(sb, expand_vars=True)
+                if term[0] == "discr" and term[2].endswith("TokenType"):
+                    table = dict(term[3])
+                    for v, tg in tt["targets"]:
+                        if table.get(v) == k and (ia.dominates(tg, db_) or tg == db_):
+                            arm_entry = tg
+            if arm_entry is None:
+                C.ob("R5", "deleted-on-every-path:" + k, False, ia.loc(db_), "arm entry of TokenType::%s not found" % k)
+                continue
+            r_ = ia.reachable(arm_entry, avoid_blocks={db_})
+            leaks = sorted(x for x in ia.exits() if x in r_)
+            C.ob("R5", "deleted-on-every-path:" + k, not leaks, ia.loc(db_),
+                 "every return reachable from the entry of the %s arm passes the deletion of the invitation: %s" % (k, not leaks))
         present = False
         for e in effects:
             for s, vals, term in ia.guards(e, expand_vars=True):
